@@ -255,6 +255,7 @@ func c01Dir(ctx *core.Ctx, dotu bool, nrand int) core.Result {
 	one := func(c *chooser, k int) {
 		var recs []wire.Stat
 		var all []byte
+		var held [][]byte
 		for i := 0; i < k; i++ {
 			c.idx = 0
 			c.labels = c.labels[:0]
@@ -283,6 +284,14 @@ func c01Dir(ctx *core.Ctx, dotu bool, nrand int) core.Result {
 				res.Violate("dir-bytes;"+dl, "PackDir bytes differ from the stat layout", det)
 			}
 			all = append(all, want...)
+			held = append(held, got)
+		}
+		// the records stay what they were while later ones are encoded (a caller may collect them before using them)
+		for i := range held {
+			if !bytes.Equal(held[i], wire.EncodeStat(&recs[i], dotu)) {
+				res.Violate("dir-bytes-changed-later;"+dl, fmt.Sprintf("the record PackDir returned for entry %d of %d no longer holds that entry after the later ones were encoded", i, len(recs)), det)
+				break
+			}
 		}
 		tailb := r.Bytes(r.Intn(30))
 		buf := append(append([]byte{}, all...), tailb...)
